@@ -49,7 +49,7 @@ func runC13(c *core.Ctx) {
 	c.Rule("R3", "index replacement resets both caches and the topology stamp; cache fills guarded by stamp equality", 4)
 	c.Rule("R4", "cache keys are complete, agree between getter and setter, and callers pass the request's own arguments", 8)
 	c.Rule("R5", "PartitionRing immutable after construction; fresh cache; watcher swaps under lock", 3)
-	c.Rule("R6", "look-back cache validity bound considers every timestamp the shard walk compares with the threshold", 2)
+	c.Rule("R6", "look-back cache validity: the upper bound considers every timestamp the shard walk compares with the threshold; the lower bound is the window start", 4)
 	pkg := c.Prog.Pkg("ring")
 	if pkg == nil {
 		c.Miss("R1", "pkg=ring", "not loaded")
@@ -66,6 +66,7 @@ func runC13(c *core.Ctx) {
 	c13Caches(c, pkg)
 	c13Partition(c, pkg)
 	c13Validity(c, pkg)
+	c13LowerBound(c, pkg, "R6")
 	c13ImmutableIndex(c, pkg, "R7")
 	c13RefreshAll(c, pkg, "R8")
 }
@@ -1074,4 +1075,42 @@ func condIsFlag(fn *an.Fn, n ast.Node) bool {
 	g := fn.Graph()
 	ex := g.Exec(g.EntryLoc(), []an.Loc{g.Locate(found.Cond)}, func(ast.Expr, an.Store) an.Tri { return an.U }, an.ExecOpts{IgnorePanic: true})
 	return ex.Must[0]
+}
+
+// c13LowerBound: a look-back cache entry is valid for windows starting no earlier than the window it was
+// computed for. Instances or partitions the walk met and left out are not in the cached subring, so nothing
+// that can be computed from the subring justifies an earlier start: both setters must store exactly the
+// start of the request's window (now − period) as the lower bound.
+func c13LowerBound(c *core.Ctx, pkg *packages.Package, R string) {
+	for _, name := range []string{"Ring.setCachedShuffledSubringWithLookback", "partitionRingShuffleShardCache.setSubringWithLookback"} {
+		f := an.FindFunc(pkg, name)
+		if f == nil {
+			c.Miss(R, "func="+name+":lower-bound", "not found")
+			continue
+		}
+		c.Analysed(f.String())
+		var got []string
+		f.InspectShallow(func(n ast.Node) bool {
+			switch x := n.(type) {
+			case *ast.KeyValueExpr:
+				if id, ok := x.Key.(*ast.Ident); ok && id.Name == "validForLookbackWindowsStartingAfter" {
+					got = append(got, f.Canon(x.Value))
+				}
+			case *ast.AssignStmt:
+				for i, l := range x.Lhs {
+					if sel, ok := an.Unparen(l).(*ast.SelectorExpr); ok && sel.Sel.Name == "validForLookbackWindowsStartingAfter" && i < len(x.Rhs) {
+						got = append(got, f.Canon(x.Rhs[i]))
+					}
+				}
+			}
+			return true
+		})
+		ok := len(got) > 0
+		for _, v := range got {
+			if v != "p3.Add(-p2).Unix()" {
+				ok = false
+			}
+		}
+		c.Check(ok, R, "func="+name+":lower-bound", f.Pos(), fmt.Sprintf("the entry's lower validity bound is the start of the request's own window, now − period: %v", got), len(got))
+	}
 }
